@@ -3122,6 +3122,9 @@ class TypeBlocks(ContainerOperand):
             return False
         if compare_dtype and self._dtypes != other._dtypes: # these are lists
             return False
+        if not self._blocks:
+            # equal shapes and no columns: there are no values to compare
+            return True
 
         # NOTE: TypeBlocks handles array operations that return Boolean
         try:
